@@ -26,6 +26,7 @@ import pipeline
 import resp
 import xsw
 import xswdoc
+import c01ids
 from xswdoc import ASSERTION, RESPONSE, SIG, ENCASSERTION, ALGS
 from pipeline import SPCase
 from core import Exn, call, cstr, cbool, copt, clist
@@ -105,6 +106,19 @@ def build_documents(ctx):
                 rest = [m for m in muts if m not in keep]
                 muts = keep + ctx.rng.sample(rest, min(len(rest), 14))
             muts += xswdoc.random_placements(ctx.rng, g, level, (24 if full else 6) * (1 if ctx.quick else 6))
+            # ---- the identifier itself: look-alike ID attributes (object vs text), normalisation on the tool side
+            ida = c01ids.identifier_differentials(g, level, ctx.rng, thin=not (full and (level != "both" or not ctx.quick)))
+            idb = c01ids.tool_side_normalisation(g, level)
+            if not full:
+                ida = ctx.rng.sample(ida, min(len(ida), 6))
+                idb = ctx.rng.sample(idb, min(len(idb), 6))
+            muts += ida + idb
+            if full:
+                # a genuine message whose IDs are upper case: the other-case look-alike is then the LOWER case one
+                gu = xswdoc.genuine(rs, as_, alg=alg, rid="R-9", aid="A-9")
+                docs.append(Doc("genuine", level, alg[0], gu, False, "genuine", None))
+                muts += [(m[0] + ":upper-case-genuine-ids", m[1]) for m in c01ids.tool_side_normalisation(gu, level)
+                         if ":other-case:" in m[0] or ":trailing-space:" in m[0]]
             if full or level != "both":
                 for lv in (["response", "assertion"] if level == "both" else [level]):
                     muts += xswdoc.signed_near_misses(lv, alg) if level != "both" else []
@@ -252,7 +266,8 @@ def run(ctx):
     env.tool_inprocess(True)
     saved_pol = os.environ.get("PV_XMLSEC_DUP")
     try:
-        with env.Clock(NOW):
+        with env.Clock(NOW), c01ids.Recorder() as rec:
+            ctx.rec = rec
             _run(ctx)
     finally:
         if saved_pol is None:
@@ -305,9 +320,19 @@ def _run(ctx):
             # ---- unit check_item + statement oracle
             qs, got = [], []
             for item, nm, px, what in items_of(text):
+                # the object's identifier is the literal ID attribute of the element it was parsed from
+                lit = c01ids.element_at(root, px).get("ID")
+                ctx.count("item-id:%s" % ("literal-ID" if item.id == lit else "DIFFERS"))
+                if item.id != lit:
+                    ctx.oracle_fail("item-id-not-literal-ID:%s:%s:%s" % (what, d.level, d.name),
+                                    "the %s object parsed from '%s' (%s) has id %r, the element's literal ID attribute is %r (attributes %r)"
+                                    % (what, d.name, stage, item.id, lit, sorted(c01ids.element_at(root, px).attrib)),
+                                    dict(unit="ident", doc=d.name, level=d.level, alg=d.alg, encrypted=d.encrypted, stage=stage, what=what,
+                                         policy="fail", xml=d.xml))
                 for spx, certs, cnames in ((sp1, [1], ["idp"]), (sp2, [3, 1], ["other", "idp"])):
                     for pol in pols:
                         set_policy(pol)
+                        ctx.rec.reset()
                         if not item.signature:
                             v = "unsigned"
                         elif what == "response":
@@ -316,6 +341,13 @@ def _run(ctx):
                         else:
                             r = call(spx.sec.check_signature, item, nm, text)
                             v = not isinstance(r, Exn) and bool(r)
+                        # what the library really handed to the pre-check and to the tool for this object
+                        ctx.count("tool-runs-audited", len(ctx.rec.tool))
+                        for tag, msg in c01ids.audit(ctx.rec, item.id, nm, text, know_item=True):
+                            ctx.oracle_fail("handed-over:%s:%s:%s:%s" % (tag, what, d.level, d.name),
+                                            "checking the %s of '%s' (%s, tool policy %s): %s" % (what, d.name, stage, pol, msg),
+                                            dict(unit="ident", doc=d.name, level=d.level, alg=d.alg, encrypted=d.encrypted, stage=stage, what=what,
+                                                 policy=pol, xml=d.xml))
                         got.append(verdict(v))
                         qs.append("(%d, %s, %d, %s)" % (POLN[pol], clist(px, lambda k: "%d%%nat" % k), xswdoc.node_name_n(nm), clist(certs, str)))
                         ctx.count("check_item:%s:%s" % (what, v))
@@ -363,8 +395,14 @@ def oracle_pipeline(ctx, docs):
             case = SPCase(wrs=st[0], was=st[1], waors=st[2])
             for pol in (POLICIES if (dup or d.kind == "genuine") else ["fail"]):
                 set_policy(pol)
+                ctx.rec.reset()
                 got = resp.observe(case.sp(), d.xml)
                 acc = isinstance(got, list)
+                ctx.count("pipeline:tool-runs-audited", len(ctx.rec.tool))
+                for tag, msg in c01ids.audit(ctx.rec):
+                    ctx.oracle_fail("handed-over:%s:pipeline:%s:%s" % (tag, d.level, d.name),
+                                    "'%s' through parse_authn_request_response under %s (tool policy %s): %s" % (d.name, st, pol, msg),
+                                    dict(unit="ident-pipeline", doc=d.name, level=d.level, alg=d.alg, encrypted=d.encrypted, setting=st, policy=pol, xml=d.xml))
                 ctx.count("pipeline:%s:%s" % (d.kind, "accepted" if acc else "rejected"))
                 ctx.nontriv((d.name, d.level, d.alg, d.encrypted, st, pol))
                 if d.kind == "genuine":
@@ -516,7 +554,39 @@ def replay(ctx, payload):
     try:
         with env.Clock(NOW):
             set_policy(inp.get("policy", "fail"))
-            if inp.get("unit") == "check_item":
+            if inp.get("unit") in ("ident", "ident-pipeline"):
+                with c01ids.Recorder() as rec:
+                    if inp.get("unit") == "ident":
+                        sp1 = SPCase(wrs=True, was=True).sp()
+                        text = xml if inp.get("stage") != "decrypted" else decrypted_text(sp1, xml)
+                        root = xswdoc.parse_text(text)
+                        for item, nm, px, what in items_of(text):
+                            if what != inp.get("what"):
+                                continue
+                            lit = c01ids.element_at(root, px).get("ID")
+                            print("%s object: id %r, literal ID attribute of its element %r" % (what, item.id, lit))
+                            bad += 1 if item.id != lit else 0
+                            if item.signature:
+                                rec.reset()
+                                r = call(sp1.sec.correctly_signed_response, text) if what == "response" else call(sp1.sec.check_signature, item, nm, text)
+                                print("_check_signature:", "refused (%s)" % (r,) if isinstance(r, Exn) else "accepted")
+                                for t in rec.tool:
+                                    print("tool argv:", t["argv"][1:-1])
+                                for q in rec.pre:
+                                    print("pre-check given: node_name=%r node_id=%r id_attr=%r -> %r" % (q.get("node_name"), q.get("node_id"), q.get("id_attr"), q.get("result")))
+                                for tag, msg in c01ids.audit(rec, item.id, nm, text, know_item=True):
+                                    print("VIOLATED %s: %s" % (tag, msg))
+                                    bad += 1
+                    else:
+                        st = inp.get("setting") or (True, True, False)
+                        got = resp.observe(SPCase(wrs=st[0], was=st[1], waors=st[2]).sp(), xml)
+                        print("implementation outcome:", got)
+                        for t in rec.tool:
+                            print("tool argv:", t["argv"][1:-1])
+                        for tag, msg in c01ids.audit(rec):
+                            print("VIOLATED %s: %s" % (tag, msg))
+                            bad += 1
+            elif inp.get("unit") == "check_item":
                 sp1 = SPCase(wrs=True, was=True).sp()
                 text = xml if inp.get("stage") != "decrypted" else decrypted_text(sp1, xml)
                 for item, nm, px, what in items_of(text):
